@@ -5,7 +5,7 @@ import gridlib as gl
 
 def run(ctx):
     rnd = random.Random(ctx.seed + 1111)
-    n = 200 if ctx.quick else 4000
+    n = 200 if ctx.quick else 1200
     scens = [gl.history(rnd, "c%d" % i, steps=rnd.randint(4, 9), with_copy=True, with_construct=True, with_transform=True, with_coef=(i % 3 == 0)) for i in range(n)]
     gl.run_grid(ctx, [("copy", scens), ("mixed", gl.mixed_family(rnd, max(40, n // 5)))], gl.OBS_NODAL | gl.OBS_RT, "C11")
     ctx.assume("equality of source and copy is judged on the projected state (points, needed, values, limits, transforms, construction flag) and on nodal reproduction; both objects are projected after every step")
